@@ -189,10 +189,8 @@ example : ∀ k, 2 ∉ (node wProg k).children := by
   · decide
   · decide
   · decide
-  · have : node wProg (k + 4) = default := by
-      unfold node
-      simp only [wProg, Array.getD]
-      rw [dif_neg (by simp)]
+  · have hsz : wProg.size = 4 := rfl
+    have : node wProg (k + 4) = default := node_default wProg (k + 4) (by rw [hsz]; omega)
     rw [this]
     exact List.not_mem_nil
 
